@@ -270,7 +270,8 @@ Lemma wfL_chain_result m L phs cs : wfL m L -> steps (view m) phs cs -> Forall (
      16 <= fst w /\ fst w + len (snd w) <= len m /\ len (snd w) = 4 /\ fst w mod 4 = 0 /\
      exists x, fst w <= x < fst w + 4 /\ ndef_area L x = true) /\
   view (apply_ws m (chain_cmds 4 (view m) cs)) = last_cache (view m) cs /\ len (apply_ws m (chain_cmds 4 (view m) cs)) = len m /\
-  touch L (view m) (last_cache (view m) cs).
+  touch L (view m) (last_cache (view m) cs) /\
+  (forall j, view (apply_ws m (firstn j (chain_cmds 4 (view m) cs))) = apply_ws (view m) (firstn j (chain_cmds 4 (view m) cs))).
 Proof. intros H. use_wfL H. eapply chain_result; eassumption. Qed.
 Lemma wfL_touch_frame m L cf m' : wfL m L -> touch L (view m) cf -> view m' = cf -> len m' = len m ->
   forall a, 0 <= a < len m -> ndef_area L a = false -> get m' a = get m a.
